@@ -165,6 +165,49 @@ def run(ctx):
                       "%s is truncated only after Parser::rollback succeeded" % what,
                       "%s is truncated before Parser::rollback has succeeded (a refused rollback would leave token and "
                       "parser histories out of step)" % what, site=trb.where(tr[0]) if tr else None)
+        # byte accounting mirrors commit: consume_token pushes no bytes for a token of the EOS *set* (eos_tokens) and
+        # token_len bytes for any other; the bytes dropped here must be computed with the same predicate and measure
+        # (Seed C12-r2: `tok != eos_token()` — the primary EOS only — charges a secondary EOS bytes never pushed.)
+        tl = trb.call_blocks("toktrie::toktree::TokTrie::token_len")
+        if ctx.floor("C12-R4", "token_len accumulation in TokenParser::rollback", len(tl), 1):
+            def eos_set_contains(e):
+                return (e[0] == "call" and e[1].endswith("::contains") and e[2]
+                        and L.is_field_read(TP, "eos_tokens")(L.strip_views(e[2][0])))
+            ge = L.guard_edges(trb, eos_set_contains, False)
+            still = L.dominated_by_cut(trb, tl, ge) if ge else tl
+            ctx.check(bool(ge) and not still, "C12-R4", "rollback-bytes:eos-set-members-count-zero",
+                      "token_len is charged only for tokens outside TokenParser.eos_tokens (the set consume_token's EOS arm uses)",
+                      "TokenParser::rollback charges token bytes without excluding every member of eos_tokens: commit pushes "
+                      "no bytes for any EOS token, so rolling back over a secondary EOS drops bytes that were never pushed",
+                      site=trb.where(tl[0]))
+            # and no other predicate short-cuts the charge: every skip of token_len inside the loop is the EOS-set arm
+            ct = ctx.body(TP + "::consume_token")
+            gc = L.guard_edges(ct, eos_set_contains, True)
+            ctx.check(bool(gc), "C12-R4", "commit-side:eos-arm-uses-eos-set", "consume_token's no-bytes arm tests eos_tokens.contains(tok)",
+                      "consume_token no longer tests eos_tokens.contains(tok): the rollback accounting has no matching commit predicate",
+                      site=ct.where())
+        # the same byte count goes to Parser::rollback and to the llm_bytes truncation
+        t = trb.blocks[cb]["term"]
+        acc = L.root_local(trb, trb.expr(t["args"][1])) if len(t["args"]) > 1 else None
+        if acc is None:
+            o = t["args"][1] if len(t["args"]) > 1 else None
+            pl = F.op_place(o) if o else None
+            acc = pl[0] if pl and len(pl) == 1 else None
+        ok = False
+        detail = ""
+        for bi, (w, m, r) in P.block_effects(trb).items():
+            if any(fld == (TP, "llm_bytes") and L.is_shrinker(c) for fld, c in m):
+                tt = trb.blocks[bi]["term"]
+                e = trb.expr(tt["args"][1]) if tt["t"] == "call" and len(tt["args"]) > 1 else None
+                detail = F.fmt_expr(e) if e else "?"
+                if e and e[0] == "bin" and e[1].startswith("Sub"):
+                    rhs = e[3]
+                    rl = rhs[1] if rhs[0] == "local" else (rhs[1][0] if rhs[0] == "place" and len(rhs[1]) == 1 else None)
+                    lhs_ok = rhs is not None and e[2][0] == "call" and e[2][1].endswith("::len")
+                    ok = lhs_ok and rl is not None and rl == acc
+        ctx.check(acc is not None and ok, "C12-R4", "rollback-bytes:same-count-for-parser-and-llm_bytes",
+                  "llm_bytes is truncated to len - n where n is the very count passed to Parser::rollback",
+                  "llm_bytes is truncated to `%s`, which is not len minus the byte count given to Parser::rollback" % detail, site=trb.where(cb))
         # check_initialized dominates the parser rollback
         ci = L.guard_edges(trb, L.is_call_to(TP + "::check_initialized"), True)
         still = L.dominated_by_cut(trb, [cb], ci) if ci else [cb]
